@@ -44,6 +44,7 @@ type Query {
   accountBot: Account
   firstN(n: Int): [Item]
   ofKind(kind: Kind, kinds: [Kind!]): [Item]
+  motto: String
   stranger: Node
   strangers: [Node]
 }
@@ -145,7 +146,8 @@ type Query struct {
 	Ratio float64
 	Self  *Query
 
-	root *ggql.Root // for Countdown, which resolves a request on the same root from inside a resolver
+	root  *ggql.Root // for Countdown, which resolves a request on the same root from inside a resolver
+	motto string     // unexported, read through the method Motto
 }
 
 // Countdown answers "n ... 1 0" by asking the same root for countdown(n-1): application code that resolves on the root it
@@ -182,6 +184,9 @@ func (q *Query) Pick(i int32) *Item {
 	}
 	return nil
 }
+
+// Motto is the getter of the UNEXPORTED field motto (the usual Go idiom): reflection must use the method.
+func (q *Query) Motto() string { return q.motto }
 
 // OfKind filters the items by an enum argument (or a list of them).
 func (q *Query) OfKind(kind string, kinds []interface{}) []*Item {
@@ -262,7 +267,10 @@ type Person struct {
 }
 
 // Greeting is a method with a pointer receiver: bound to Account.greeting and Member... (only Account declares it).
-func (p *Person) Greeting(prefix string) string { called("Person.Greeting"); return prefix + " " + p.Name }
+func (p *Person) Greeting(prefix string) string {
+	called("Person.Greeting")
+	return prefix + " " + p.Name
+}
 
 // Robot is ANOTHER Go type served under the object type Account (same field names, its own Greeting method).
 type Robot struct {
@@ -430,7 +438,7 @@ func NewRootLate() (*ggql.Root, *Root, func() error, error) { return newRootLate
 func newRootLate(sdl string) (*ggql.Root, *Root, func() error, error) {
 	i2 := &Item{ID: "i2", Size: 2, Tags: []string{"x", "y"}, Kind: "LARGE"}
 	i1 := &Item{ID: "i1", Size: 1, Tags: []string{"a"}, Next: i2, Kind: "SMALL"}
-	q := &Query{Items: []*Item{i1, i2}, Name: "zoo", Count: 2, When: time.Date(2020, 1, 2, 3, 4, 5, 0, time.UTC), Ratio: 0.5}
+	q := &Query{motto: "see for yourself", Items: []*Item{i1, i2}, Name: "zoo", Count: 2, When: time.Date(2020, 1, 2, 3, 4, 5, 0, time.UTC), Ratio: 0.5}
 	q.Self = q
 	r := &Root{Query: q, Mutation: &Mutation{N: 10}}
 	root := ggql.NewRoot(r)
@@ -503,6 +511,7 @@ var Requests = []struct {
 	{`query($o: Opts = {text: "d"}) { search(opts: $o) }`, nil},
 	{`query($o: Opts) { search(opts: $o) }`, map[string]interface{}{"o": map[string]interface{}{"tags": []interface{}{"v"}}}},
 	{`{ countdown(n: 3) name }`, nil},
+	{`{ motto name self { motto } }`, nil},
 	{`{ ofKind(kind: LARGE) { id kind } small: ofKind(kinds: [SMALL]) { id } }`, nil},
 	{`query($k: Kind = SMALL) { ofKind(kind: $k) { id } }`, nil},
 	{`query($k: Kind) { ofKind(kind: $k) { id } }`, map[string]interface{}{"k": "LARGE"}},
